@@ -560,6 +560,23 @@ def fixed_histories():
                            ('failing:bad_extra_mode', bad_uns), ('variant:mode_count', two), ('failing:bad_extra_mode', bad_uns),
                            ('failing:bad_lookahead', bad_la), ('base', base), ('failing:bad_lookahead', bad_la),
                            ('variant:transition', two_tr), ('variant:mode_count', two), ('failing:bad_extra_mode', bad_tail)])
+    # a long history of many distinct tiny configurations with early ones rebuilt again and again
+    # (a cache that forgets, evicts or re-uses entries must still be transparent)
+    def tiny(i):
+        return [M('M', [P('k%d;' % i, i % 60), P('[a-z]', 61)], [])]
+    seq = []
+    nlong = 300
+    for i in range(nlong):
+        seq.append(('base', tiny(i)))
+        if i % 16 == 15:
+            seq.append(('base', tiny(0)))
+            seq.append(('base', tiny(i // 2)))
+    for i in (0, 1, 2, 128, 255, 256, 257, 299):
+        seq.append(('base', tiny(i)))
+    steps = []
+    for i, (role, cfg) in enumerate(seq):
+        steps.append({'modes': cfg, 'inputs': ['k0;k1;x', 'k128;k257;k299;'], 'role': role, 'family': 0, 'uncached_first': False})
+    hs.append({'name': 'fixed_many_configs', 'steps': steps})
     return hs
 
 
